@@ -145,9 +145,10 @@ func c08Make(w *W, r *rand.Rand, k int) *c08Case {
 	}
 	cfg := cfgFor(tree, OptSet(r.Intn(16)), undefined)
 	cfg.Infix = infix
+	cfg.StrayOptimize = []int{0, 0, 1, 2}[r.Intn(4)] // the general optimize key next to the four switches (it selects nothing there)
 	if r.Intn(6) == 0 {
 		// a Config with many entries in every map (sizes around powers of two, where a map or a lookup table may change shape)
-		cfg.Pad = []int{63, 64, 65, 128, 257, 300}[r.Intn(6)]
+		cfg.Pad = []int{63, 64, 65, 128, 257, 300, 1100}[r.Intn(7)]
 		w.Inc("padded_configs")
 	}
 	cfg.Consts = map[string]interface{}{}
